@@ -128,9 +128,6 @@ Proof.
   - right. split; [reflexivity|]. exists (ty_of (wire_of e t v)), (ser_body (wire_of e t v)).
     repeat split; [apply ty_of_lt|apply ty_of_not_se].
 Qed.
-Lemma left_out_norm e t req d v : has_type e t v -> left_out t req d v = false ->
-  enc_var e 0 req t d v = enc_var e 0 true t d v /\ norm e t req d v = norm e t true d v.
-Proof. Abort.
 
 Lemma written_req_true e tag t req d v : has_type e t v -> left_out t req d v = false ->
   enc_var e tag req t d v = enc_var e tag true t d v /\ norm e t req d v = norm e t true d v.
